@@ -131,13 +131,28 @@ CHECKS['C12'] = {
     'technique': 'Hypothesis-generated histories on a cluster simulator, differential oracle against ground truth at quiescence',
 }
 
+CHECKS['C14'] = {
+    'engine': 'E1-clustersim',
+    'category': 'exploration',
+    'text': ('Generated clusters (2-6 real instances over 1-3 nodes, background load placed through the Supervisors, '
+             'optional instance restarts, target application with generated distribution / identifiers rules / program '
+             'knowledge) are run to OPERATION on the simulator; the real get_supvisors_instance is compared, for the six '
+             'strategies and generated candidate lists / loads / pending requests, with a reference computed from the '
+             'simulator topology and true placement, and a real start_application is checked against the distribution '
+             'rule (single instance able to carry the whole sequence, single node, rules, knowledge, 100 % cap).'),
+    'design_ref': 'DESIGN.md 5/C14',
+    'note': ('Trusted: the simulator, the reference placement function (about 25 lines), Hypothesis. Ties accepted; '
+             'SINGLE_NODE node choice checked by validity only. Bounds: <= 6 instances, <= 3 nodes, <= 4 target programs.'),
+    'technique': 'Hypothesis differential testing of the placement function vs reference model on simulated clusters',
+}
+
 HOOK_COMMITS = []
 
 ENGINES = [
     {'name': 'E1-clustersim', 'path': 'clustersim/', 'kind_free_text':
         'deterministic cluster simulator: N real Supvisors instances in one process on a fake OS / network / clock; '
         'Hypothesis generates configuration and history; per-property monitors',
-     'serves_properties': ['C01', 'C02', 'C07', 'C08', 'C12', 'C16']},
+     'serves_properties': ['C01', 'C02', 'C07', 'C08', 'C12', 'C14', 'C16']},
     {'name': 'E3-solo', 'path': 'clustersim/solo.py', 'kind_free_text':
         'one real instance with puppet peers / pure component harnesses driven by Hypothesis',
      'serves_properties': ['C11', 'C15', 'C20']},
@@ -145,5 +160,5 @@ ENGINES = [
 
 _PENDING = 'check not built yet in this round (the technique applies; see DESIGN.md section 5)'
 NOT_APPLICABLE = {pid: _PENDING for pid in
-                  ['C03', 'C04', 'C05', 'C06', 'C09', 'C10', 'C13', 'C14',
+                  ['C03', 'C04', 'C05', 'C06', 'C09', 'C10', 'C13',
                    'C17', 'C18', 'C19']}
